@@ -95,7 +95,7 @@ def gen(run_seed: int, tier: str) -> dict:
 
 
 def _env(W: World, sc: dict, tap: str) -> dict:
-    return {"cwd": str(W.proj), "home": str(W.home), "tmp": str(W.tmp), "walk": "sorted",
+    return {"stack_dump": True, "cwd": str(W.proj), "home": str(W.home), "tmp": str(W.tmp), "walk": "sorted",
             "tape": {"seed": sc["sched_seed"], "values": sc.get("sched_tape")}, "knobs": dict(sc["knobs"]),
             "tap": str(W.root / tap)}
 
@@ -145,6 +145,28 @@ def _final_lang(rel: str, data: bytes) -> str:
     if data.startswith(b"#!") and b"python" in data.split(b"\n", 1)[0]:
         return "python"
     return "unknown"
+
+
+def _hang_site(stack: str | None) -> str:
+    """Innermost repository frame of a hung process (faulthandler dump, most recent call first)."""
+    import re
+    for line in (stack or "").splitlines():
+        m = re.search(r'File ".*?/src/(.+?\.py)", line \d+ in (\w+)', line)
+        if m:
+            return f"{m.group(1)}:{m.group(2)}"
+    return "unknown-site"
+
+
+def _abort_failures(recs: list[dict], offs: dict, where: str) -> list[dict]:
+    """A ValueError (incl. UnicodeError) leaving a rule is re-raised by the orchestrator and aborts the whole run;
+    the recorder saw which rule raised it on which file."""
+    out = []
+    for r in recs:
+        if r.get("site") == "recorder" and r.get("exc_type") in ("ValueError", "UnicodeEncodeError", "UnicodeDecodeError", "UnicodeError"):
+            lang, fc = _lang_of_path(r.get("file") or "", offs)
+            out.append(_fail("aborted", rule=r.get("rule", "?"), exc=r.get("exc_type"), lang=lang, fault=fc, where=where,
+                             file=r.get("file"), msg=r.get("exc_msg")))
+    return out
 
 
 def _tap_failures(recs: list[dict], offs: dict, where: str) -> list[dict]:
@@ -250,12 +272,13 @@ def _execute(zy, sc: dict, W: World) -> dict:
         if seq.get("exc_type") == "StepCapExceeded":
             failures.append(_fail("steps", lang=lang0, fault=fc0, cap=cap))
         elif seq.get("kind") == "timeout":
-            failures.append(_fail("wall", rule="api-seq", lang=lang0, fault=fc0))
+            failures.append(_fail("wall", rule=_hang_site(seq.get("stack")), lang="any", fault="any", op="api-seq", stack=(seq.get("stack") or "")[:1500]))
         elif seq.get("kind") == "died":
             failures.append(_fail("crash", rule="api-seq", exc=f"status={seq.get('status')}", lang=lang0, fault=fc0))
         else:
-            failures.append(_fail("raised", rule="api-seq", exc=seq.get("exc_type"), lang=lang0, fault=fc0,
-                                  msg=seq.get("exc"), tb=seq.get("tb")))
+            ab = _abort_failures(read_tap(str(W.root / "tap-seq.jsonl")), offs, "api-seq")
+            failures += ab or [_fail("raised", rule="api-seq", exc=seq.get("exc_type"), lang=lang0, fault=fc0,
+                                     msg=seq.get("exc"), tb=seq.get("tb"))]
     else:
         stats["steps"] = seq["value"]["steps"]
         dry_touched |= touched_by_offender(seq["value"]["violations"])
@@ -298,7 +321,7 @@ def _execute(zy, sc: dict, W: World) -> dict:
                 for x in ob[:20]:
                     failures.append(_fail("sibling-extra", rule=json.loads(x)[0], lang=lang0, fault=fc0, where="offenders-first", only_baseline=oa[:5], only_with_offender=ob[:5]))
             elif not of["ok"] and of.get("kind") == "timeout":
-                failures.append(_fail("wall", rule="api-files", lang=lang0, fault=fc0))
+                failures.append(_fail("wall", rule=_hang_site(of.get("stack")), lang="any", fault="any", op="api-files"))
     hung = any(f["sig"].startswith(("C11 steps", "C11 wall")) for f in failures)
     if hung:   # non-termination is established; the remaining operations would only wait for their watchdogs
         stats["offenders"] = len(offs)
@@ -310,7 +333,11 @@ def _execute(zy, sc: dict, W: World) -> dict:
                                         "dir": root, "workers": sc["W"]}, timeout=op_timeout, exit="_exit")
     if not par["ok"]:
         kind = {"timeout": "wall", "died": "crash"}.get(par.get("kind"), "raised")
-        failures.append(_fail(kind, rule="api-par", exc=par.get("exc_type") or "none", lang=lang0, fault=fc0, msg=par.get("exc")))
+        ab = _abort_failures(read_tap(str(W.root / "tap-par.jsonl")), offs, "api-par") if kind == "raised" else []
+        if kind == "wall":
+            failures.append(_fail("wall", rule=_hang_site(par.get("stack")), lang="any", fault="any", op="api-par"))
+        else:
+            failures += ab or [_fail(kind, rule="api-par", exc=par.get("exc_type") or "none", lang=lang0, fault=fc0, msg=par.get("exc"))]
     else:
         sc = dict(sc, sched_tape=par["value"]["trace"])
         if par["value"]["counters"].get("worker_died"):
@@ -333,13 +360,16 @@ def _execute(zy, sc: dict, W: World) -> dict:
         r = zy.call("vsim.ops:cli_call", {"env": _env(W, sc, f"tap-cli{i}.jsonl"), "argv": argv}, timeout=op_timeout, exit="_exit")
         if not r["ok"]:
             kind = {"timeout": "wall", "died": "crash"}.get(r.get("kind"), "raised")
-            failures.append(_fail(kind, rule=cmd, exc=r.get("exc_type") or "none", lang=lang0, fault=fc0, msg=r.get("exc")))
+            rule = _hang_site(r.get("stack")) if kind == "wall" else cmd
+            failures.append(_fail(kind, rule=rule, exc=r.get("exc_type") or "none", lang="any" if kind == "wall" else lang0,
+                                  fault="any" if kind == "wall" else fc0, msg=r.get("exc"), op=f"cli:{cmd}"))
             continue
         ex = r["value"]["exit"]
         exits.append(ex)
         if ex not in (0, 1):
-            failures.append(_fail(f"exit={ex}", rule=cmd, exc=(r["value"].get("exc") or "none").split(":")[0], lang=lang0, fault=fc0,
-                                  stderr=r["value"]["stderr"][-600:], stdout=r["value"]["stdout"][-300:], argv=argv))
+            ab = _abort_failures(read_tap(str(W.root / f"tap-cli{i}.jsonl")), offs, f"cli:{cmd}")
+            failures += ab or [_fail(f"exit={ex}", rule=cmd, exc=(r["value"].get("exc") or "none").split(":")[0], lang=lang0, fault=fc0,
+                                     stderr=r["value"]["stderr"][-600:], stdout=r["value"]["stdout"][-300:], argv=argv)]
         elif r["value"].get("exc"):
             failures.append(_fail("cli-exception", rule=cmd, exc=r["value"]["exc"].split(":")[0], lang=lang0, fault=fc0, msg=r["value"]["exc"]))
         failures += _tap_failures(read_tap(str(W.root / f"tap-cli{i}.jsonl")), offs, f"cli:{cmd}")
